@@ -58,6 +58,9 @@ func main() {
 		if tier != "quick" && tier != "thorough" {
 			usage()
 		}
+		if os.Getenv("VERIF_INNER") == "" && os.Getenv("VERIF_NOGUARD") == "" {
+			os.Exit(guardedCheck(os.Args[2], tier, p.rule))
+		}
 		c := NewCtx(os.Args[2], tier)
 		func() {
 			defer func() {
@@ -90,7 +93,13 @@ func main() {
 			fmt.Fprintf(os.Stderr, "no replay for property %q\n", id)
 			os.Exit(2)
 		}
-		ok2, msg := p.replay(rp)
+		var ok2 bool
+		var msg string
+		if rp["check"] == "process-died" {
+			ok2, msg = replayProcessDied(rp)
+		} else {
+			ok2, msg = p.replay(rp)
+		}
 		if ok2 {
 			fmt.Printf("replay %s: property holds on this case now\n", os.Args[2])
 			os.Exit(0)
